@@ -4,6 +4,7 @@
 package c09
 
 import (
+	"errors"
 	"fmt"
 
 	lindbkv "github.com/lindb/lindb/kv"
@@ -89,7 +90,7 @@ func (s *sys) callArgs(parts ...string) ([][]byte, func()) {
 func newSys(dbName string, nShards int) (*sys, error) {
 	root, err := os.MkdirTemp("", "lvh-c09-*")
 	if err != nil {
-		return nil, err
+		return nil, harnessError{err}
 	}
 	s := &sys{root: root, dbName: dbName, nShards: nShards, conv: metric.NewProtoConverter(models.NewDefaultLimits())}
 	current.Store(s)
@@ -100,13 +101,20 @@ func newSys(dbName string, nShards int) (*sys, error) {
 	return s, nil
 }
 
+// harnessError marks a failure of the harness's own scratch-file handling (temp dir, directory copy).
+// Only these stop the run; every other failure of a case (an error or a panic out of lindb — it never
+// happens on the unchanged tree) is an oracle failure of that case, see area.Run.
+type harnessError struct{ error }
+
+func (e harnessError) Unwrap() error { return e.error }
+
 func (s *sys) genDir() string        { return filepath.Join(s.root, "g"+strconv.Itoa(s.gen)) }
 func (s *sys) metaDir() string       { return filepath.Join(s.genDir(), "meta") }
 func (s *sys) shardDir(k int) string { return filepath.Join(s.genDir(), "shard-"+strconv.Itoa(k)) }
 
 func (s *sys) open() error {
 	if err := os.MkdirAll(s.genDir(), 0o755); err != nil {
-		return err
+		return harnessError{err}
 	}
 	m, err := index.NewMetricMetaDatabase(s.dbName, s.metaDir())
 	if err != nil {
@@ -150,7 +158,7 @@ func (s *sys) crash() error {
 	s.gen++
 	dst := s.genDir()
 	if err := copyTree(src, dst); err != nil {
-		return err
+		return harnessError{err}
 	}
 	s.closeDBs()
 	_ = os.RemoveAll(src)
@@ -194,7 +202,7 @@ func (s *sys) indexFlushImage(shard, j int) error {
 	_ = os.RemoveAll(src)
 	s.gen++
 	if err := os.Rename(s.imgDir, s.genDir()); err != nil {
-		return err
+		return harnessError{err}
 	}
 	s.imgDir = ""
 	return s.open()
@@ -309,9 +317,14 @@ func (s *sys) rowOwn(ns, name int, tags []kv) (*metric.StorageRow, error) {
 
 // ---- canonical outputs
 
+const harnessPrefix = "err harness:"
+
 func errKind(err error) string {
 	m := err.Error()
+	var he harnessError
 	switch {
+	case errors.As(err, &he):
+		return harnessPrefix + strings.ReplaceAll(m, "\n", " ")
 	case strings.Contains(m, "too many series"):
 		return "err too-many-series"
 	case strings.Contains(m, "too many tag keys"), strings.Contains(m, "too many tag"):
